@@ -517,6 +517,10 @@ def compare(chk, name, cmd, payload, expect):
         if kind == "fanmode":
             continue  # vendor-scheme dependent: acceptance by the decoder is the claim
         if key not in pl:
+            if kind == "iso?" and exp is not None:
+                # a date-time was passed and accepted, yet the frame the decoder sees carries none: the value is lost
+                chk(False, f"C03:{name}:{key}-carried", "date-time argument dropped")
+                continue
             if kind.endswith("?") or kind == "num0" or exp is None:
                 continue  # the decoder has no field for it in this form
             chk(False, f"C03:{name}:{key}-carried", "field missing")
